@@ -481,12 +481,13 @@ def inSteps (s : AState ρ σ) (fuel : Nat) : List ρ × ρ × Bool :=
     (RNum.ofInt ((s.chunk : Int) - ((s.L : Int) + 1) - RNum.toInt (RNum.ceil (RNum.one / s.target))))
     fuel (RNum.one / s.ratio) s.lastIndex
 
-def overrun (s : AState ρ σ) : Outcome (CallOut σ) :=
-  if s.kind.isSinc then .panic "wave_out[n]" else .abort "get_unchecked_mut(n)"
+def overrun (s : AState ρ σ) (mask : List Bool) : Outcome (CallOut σ) :=
+  if mask.any id then (if s.kind.isSinc then .panic "wave_out[n]" else .abort "get_unchecked_mut(n)")
+  else .panic "position diverges"
 
 theorem finishIn_eq (s : AState ρ σ) (mask : List Bool) (fuel : Nat) :
     s.finishIn mask fuel =
-      if (inSteps s fuel).2.2 then (s, overrun s)
+      if (inSteps s fuel).2.2 then (s, overrun s mask)
       else finishWith s mask (inSteps s fuel).1 (2 * (s.L : Int) + s.chunk)
         { s with lastIndex := (inSteps s fuel).2.1 - RNum.ofNat s.chunk, ratio := s.target }
         s.chunk (inSteps s fuel).1.length := rfl
@@ -580,7 +581,7 @@ theorem finishCall_chan {s s' : AState ρ σ} {mask : List Bool} {outLens : List
       exfalso
       have := h.2
       unfold overrun at this
-      split at this <;> simp at this
+      split at this <;> (try split at this) <;> simp at this
     | false =>
       simp only [hr, Bool.false_eq_true, if_false] at h
       have hfuel : fuelOf outLens mask ≤ fuelOf [l] [true] := by
@@ -805,7 +806,7 @@ theorem finishCall_ok {s s' : AState ρ σ} {mask : List Bool} {outLens : List N
       exfalso
       have := h.2
       unfold overrun at this
-      split at this <;> simp at this
+      split at this <;> (try split at this) <;> simp at this
     | false =>
       simp only [hr, Bool.false_eq_true, if_false] at h
       obtain ⟨h1, h2, _⟩ := finishWith_ok h
@@ -892,7 +893,7 @@ theorem finishCall_two {S s₁ s₂ : AState ρ σ} {b : Array (Array σ)} {mm m
       exfalso
       have := h₁.2
       unfold overrun at this
-      split at this <;> simp at this
+      split at this <;> (try split at this) <;> simp at this
     | false =>
       cases hr2 : (inSteps S (fuelOf outLens m₂)).2.2 with
       | true =>
@@ -900,7 +901,7 @@ theorem finishCall_two {S s₁ s₂ : AState ρ σ} {b : Array (Array σ)} {mm m
         exfalso
         have := h₂.2
         unfold overrun at this
-        split at this <;> simp at this
+        split at this <;> (try split at this) <;> simp at this
       | false =>
         have hst : inSteps S (fuelOf outLens m₂) = inSteps S (fuelOf outLens m₁) :=
           stepsIn_fuel_irrel _ _ _ _ _ _ hr2 hr1
@@ -1400,7 +1401,7 @@ theorem finishCall_chan_off {s s' : AState ρ σ} {mask : List Bool} {outLens : 
       exfalso
       have := h.2
       unfold overrun at this
-      split at this <;> simp at this
+      split at this <;> (try split at this) <;> simp at this
     | false =>
       simp only [hr, Bool.false_eq_true, if_false] at h
       obtain ⟨_, _, _, h4, _⟩ := finishWith_ok h
@@ -1434,7 +1435,7 @@ theorem refill_single_off (s : AState ρ σ) (b inp : Array σ) (shiftFrom n : N
   simp [h', refill.go]
 
 /-- **C11, one call, inactive channel**: channel `i` of a successful n-channel call in which `i` is
-masked off is the single-channel call with mask `[false]` (provided fewer than `idleFuel` = 10⁸
+masked off is the single-channel call with mask `[false]` (provided fewer than `idleFuel` = 10⁶
 frames were produced: the model bounds the idle loop of a resampler without active channel). -/
 theorem process_channel_inactive {s s' : AState ρ σ} {a : CallArgs σ} {out : CallOut σ} {i : Nat}
     (h : s.process a = (s', .ok out)) (hsz : s.buf.size = s.nch)
